@@ -178,13 +178,13 @@ Proof. destruct d, q, sa, sc; reflexivity. Qed.
 Notation BN open d q S ty i m A acc := (GstD d false S ty (nstk q open) i m A None 0 CNone acc false false).
 
 Lemma nest_open strip sepc d q S ty i m A a r :
-  step strip sepc (BN false d q S ty i m A (String a r)) (qchar (other q))
-  = Ok (BN true d q S ty i m A (snoc (String a r) (qchar (other q)))).
+  step strip sepc (BN false d q S ty i m A (String a r)) (qchar (other_quote q))
+  = Ok (BN true d q S ty i m A (snoc (String a r) (qchar (other_quote q)))).
 Proof. destruct d, q, m; reflexivity. Qed.
 
 Lemma nest_close strip sepc d q S ty i m A acc :
-  step strip sepc (BN true d q S ty i m A acc) (qchar (other q))
-  = Ok (BN false d q S ty i m A (snoc acc (qchar (other q)))).
+  step strip sepc (BN true d q S ty i m A acc) (qchar (other_quote q))
+  = Ok (BN false d q S ty i m A (snoc acc (qchar (other_quote q)))).
 Proof. destruct d, q; reflexivity. Qed.
 
 (* keyword searches *)
